@@ -78,6 +78,16 @@ func VerifC01_StatefulSetBatchContext() {
 func VerifC01_StatefulSetBatchContextRollback() {
 	rc, release, _, R, ref, N, _ := vSetup(true)
 	if !util.IsStatefulSetUnorderedUpdate(rc.object) {
+		// ordered update (the default of native and Advanced StatefulSets alike): the partition is an ordinal, every
+		// pod at or above it moves, and nothing says which ordinals the no-need-update pods have — so the pods the
+		// partition lets move must themselves stay within the plan computed on the pods that do need the update
+		ctx, err := rc.CalculateBatchContext(release)
+		verifrt.Assert(err == nil && ctx != nil, "C01.statefulset.rollback.context.noerror")
+		if ctx == nil {
+			return
+		}
+		verifrt.Cover("ordered")
+		verifrt.Assert(R-int(ctx.DesiredPartition.IntVal) <= ref, "C01.statefulset.rollback.ordered.partitionExposureWithinPlan")
 		return
 	}
 	ctx, err := rc.CalculateBatchContext(release)
